@@ -73,6 +73,7 @@ type passKey struct{}
 
 // Sim wires the store, the controllers, the scheduler gate and the tracer.
 type Sim struct {
+	faultSeq int // cycles the kind of injected API fault
 	Store *Store
 	Dyn   *DynCache
 	Ctrls map[string]reconcile.Reconciler
